@@ -47,10 +47,10 @@ int t2_errno;
 int *__errno_location(void) { return &t2_errno; }
 char *strerror(int e) { return (char *)"e"; }
 time_t t2_now; unsigned t2_time_calls;
-/* arbitrary non-decreasing clock */
+/* arbitrary non-decreasing clock (at most 2^20 s per step) */
 time_t time(time_t *t) {
 	long long d = nondet_ll();
-	__CPROVER_assume(d >= 0 && d <= 0x100000000LL);
+	__CPROVER_assume(d >= 0 && d <= 0x100000LL);
 	t2_now += d; t2_time_calls++;
 	if (t) *t = t2_now;
 	return t2_now;
@@ -164,18 +164,25 @@ unsigned t2_removed[T2_QMAX], t2_released[T2_QMAX]; int t2_rm_state[T2_QMAX]; si
 unsigned long long t2_written[T2_QMAX]; _Bool t2_whole[T2_QMAX]; unsigned t2_rm_order[T2_QMAX]; unsigned t2_rm_seq;
 unsigned t2_errmsg_calls;
 static size_t t2_req_length(KSI_LIST(KSI_AsyncHandle) *l) { return t2_qlen; }
+/* every access to the handle table goes through CONSTANT indices (a pointer with a symbolic offset into the table would make
+ * every write of the real code a byte_update over the whole table) */
 static int t2_req_elementAt(KSI_LIST(KSI_AsyncHandle) *l, size_t pos, KSI_AsyncHandle **o) {
+	size_t k;
 	__CPROVER_assert(pos == 0 && t2_qlen > 0 && o != NULL, "requests are looked at only at the head of the queue (submission order)");
-	*o = &t2_h[t2_first]; return KSI_OK;
+	__CPROVER_assert(t2_first < T2_QMAX, "MACHINERY: queue model consistent");
+	for (k = 0; k < T2_QMAX; k++) if (k == t2_first) *o = &t2_h[k];
+	return KSI_OK;
 }
 static int t2_req_remove(KSI_LIST(KSI_AsyncHandle) *l, size_t pos, KSI_AsyncHandle **o) {
-	size_t idx;
+	size_t idx, k;
 	__CPROVER_assert(t2_qlen > 0 && (pos == 0 || pos == t2_qlen - 1), "a request leaves the queue at one of its ends");
 	__CPROVER_assert(t2_first + t2_qlen <= T2_QMAX, "MACHINERY: queue model consistent");
 	if (pos == 0) { idx = t2_first; t2_first++; } else { idx = t2_first + t2_qlen - 1; }
-	t2_qlen--;
-	t2_removed[idx]++; t2_rm_state[idx] = t2_h[idx].state; t2_rm_sent[idx] = t2_h[idx].sentCount; t2_rm_order[idx] = ++t2_rm_seq;
-	if (o != NULL) *o = &t2_h[idx]; else t2_released[idx]++;          /* list semantics: without receiver the element's reference is released */
+	t2_qlen--; ++t2_rm_seq;
+	for (k = 0; k < T2_QMAX; k++) if (k == idx) {
+		t2_removed[k]++; t2_rm_state[k] = t2_h[k].state; t2_rm_sent[k] = t2_h[k].sentCount; t2_rm_order[k] = t2_rm_seq;
+		if (o != NULL) *o = &t2_h[k]; else t2_released[k]++;          /* list semantics: without receiver the element's reference is released */
+	}
 	return KSI_OK;
 }
 void KSI_AsyncHandle_free(KSI_AsyncHandle *h) {
@@ -193,20 +200,24 @@ static int t2_req_append(KSI_LIST(KSI_AsyncHandle) *l, KSI_AsyncHandle *o) {
 }
 
 ssize_t send(int fd, const void *buf, size_t len, int flags) {
-	ssize_t c = nondet_ll(); size_t idx = t2_first;
+	ssize_t c = nondet_ll(); size_t k;
 	t2_send_calls++;
 	__CPROVER_assert(t2_fd_is_open(fd) && fd == t2_sockfd(), "send: on the connection's open descriptor");
 	__CPROVER_assert(t2_ready(), "nothing is written on a half-open socket (connection not yet established)");
 	__CPROVER_assert(!t2_peer_failed, "no write after the connection failed");
-	__CPROVER_assert(t2_qlen > 0 && idx < T2_QMAX, "send: there is a head request");
-	__CPROVER_assert(t2_h[idx].state == KSI_ASYNC_STATE_WAITING_FOR_DISPATCH, "only requests waiting for dispatch are written");
-	__CPROVER_assert((const unsigned char *)buf == t2_rawp[idx] + t2_h[idx].sentCount && len == t2_len0[idx] - t2_h[idx].sentCount && t2_h[idx].sentCount < t2_len0[idx],
-			"send continues the head request exactly where the previous partial send stopped, up to its end");
-	__CPROVER_assert(t2_h[idx].sentCount == t2_wire_partial, "wire: a request is written on a connection from its first octet and only behind WHOLE requests (the octets of it already on THIS connection are exactly its send cursor)");
+	__CPROVER_assert(t2_qlen > 0 && t2_first < T2_QMAX, "send: there is a head request");
 	__CPROVER_assume(c >= -1 && c <= (ssize_t)len && c != 0);   /* POSIX: a non-empty send on a stream socket transfers something or fails */
-	if (c < 0) { t2_errno = nondet_int(); if (t2_errno != EWOULDBLOCK && t2_errno != EAGAIN) t2_peer_failed = 1; else t2_send_wouldblock = 1; return c; }
-	t2_written[idx] += (unsigned long long)c; t2_wire_partial += (unsigned long long)c;
-	if (t2_wire_partial == t2_len0[idx]) { t2_wire_partial = 0; t2_whole[idx] = 1; }
+	for (k = 0; k < T2_QMAX; k++) if (k == t2_first) {
+		__CPROVER_assert(t2_h[k].state == KSI_ASYNC_STATE_WAITING_FOR_DISPATCH, "only requests waiting for dispatch are written");
+		__CPROVER_assert((const unsigned char *)buf == t2_rawp[k] + t2_h[k].sentCount && len == t2_len0[k] - t2_h[k].sentCount && t2_h[k].sentCount < t2_len0[k],
+				"send continues the head request exactly where the previous partial send stopped, up to its end");
+		__CPROVER_assert(t2_h[k].sentCount == t2_wire_partial, "wire: a request is written on a connection from its first octet and only behind WHOLE requests (the octets of it already on THIS connection are exactly its send cursor)");
+		if (c > 0) {
+			t2_written[k] += (unsigned long long)c; t2_wire_partial += (unsigned long long)c;
+			if (t2_wire_partial == t2_len0[k]) { t2_wire_partial = 0; t2_whole[k] = 1; }
+		}
+	}
+	if (c < 0) { t2_errno = nondet_int(); if (t2_errno != EWOULDBLOCK && t2_errno != EAGAIN) t2_peer_failed = 1; else t2_send_wouldblock = 1; }
 	return c;
 }
 
